@@ -262,6 +262,14 @@ def _sym_problem(solver, rng, fi):
         dfd = {"kind": "Cox", "use_efron": bool(rng.integers(2))}
         pend = {"kind": "L1", "alpha": 0.03, "positive": False}
         name = "ProxNewton"
+    elif s == "GroupBCD_SparseGroup":
+        ptr, idx = gen.groups_random(rng, p, 3, permuted=True)
+        dfd = {"kind": "QuadraticGroup", "grp_ptr": ptr, "grp_indices": idx}
+        al = 0.05 * _amax(X, y, {"kind": "Quadratic"}, fi)
+        pend = {"kind": "WeightedL1GroupL2", "alpha": al, "weights_groups": rng.uniform(0.5, 2.0, len(ptr) - 1).tolist(),
+                "weights_features": rng.uniform(0.2, 2.0, p).tolist(), "grp_ptr": ptr, "grp_indices": idx}
+        name = "GroupBCD"
+        extra = dict(ws_strategy="fixpoint")
     elif s in ("GroupBCD", "GroupProxNewton"):
         ptr, idx = gen.groups_random(rng, p, 3, permuted=True)
         gw = rng.uniform(0.5, 2.0, len(ptr) - 1).tolist()
@@ -295,6 +303,7 @@ def run_c15(inst, seed, tid):
             kw = dict(max_iter=50000, tol=1e-9)
         if name == "GramCD":
             kw = dict(max_iter=20000)
+        kw.update(extra)
         if name == "ProxNewton" and dfd["kind"] == "Cox" and kind.startswith("stack"):
             dfd = dict(dfd, use_efron=False)      # the Efron tie correction is not invariant under replication
         sdf = (lambda d: None) if name == "GramCD" else (lambda d: d)    # GramCD fits Quadratic implicitly
@@ -317,6 +326,8 @@ def run_c15(inst, seed, tid):
             inv = np.argsort(perm)
             if "weights" in pend and pend["kind"] in ("WeightedL1", "WeightedMCPenalty"):
                 pend2["weights"] = list(np.asarray(pend["weights"])[perm])
+            if "weights_features" in pend:
+                pend2["weights_features"] = list(np.asarray(pend["weights_features"])[perm])
             if "grp_indices" in pend:
                 newidx = [int(inv[j]) for j in pend["grp_indices"]]
                 pend2["grp_indices"] = newidx
@@ -330,8 +341,9 @@ def run_c15(inst, seed, tid):
             for g in gp:
                 nidx += idx[ptr[g]:ptr[g + 1]]
                 nptr.append(len(nidx))
-                nw.append(pend["weights"][g])
-            pend2.update(grp_ptr=nptr, grp_indices=nidx, weights=nw)
+                nw.append((pend.get("weights") or pend.get("weights_groups"))[g])
+            pend2.update(grp_ptr=nptr, grp_indices=nidx)
+            pend2["weights" if "weights" in pend else "weights_groups"] = nw
             dfd2.update(grp_ptr=nptr, grp_indices=nidx)
         elif kind == "perm_within_group":
             ptr, idx = pend["grp_ptr"], list(pend["grp_indices"])
@@ -515,14 +527,20 @@ def run_c16(inst, seed, tid):
                     est.fit(Xs if kind not in ("GroupLasso", "GroupLasso_weights") else X, y)
                 w = _est_w(est, fi)
                 exc = None
+                claimed = bool(np.max(getattr(est, "stop_crit_", 0.0)) <= 10 * TOL)
             else:
                 kw = {}
                 if s == "FISTA":
                     kw = dict(max_iter=50000, tol=1e-9)
                 if s == "GramCD":
                     kw = dict(max_iter=20000)
+                if s == "AndersonCD" and logistic and fi:
+                    # the damped intercept step of Logistic (known finding KF-logistic-intercept-step) needs many
+                    # outer iterations at the null solution; the default budget stops short and SAYS so
+                    kw = dict(max_iter=3000)
                 r = _run(s, X, y, None if s == "GramCD" else dfd, pend, fi, st, **kw)
                 w, exc = r["w"], r["exc"]
+                claimed = bool(r["reported"])
             f.meta.setdefault("exc", []).append(exc)
             f.flag("runs", exc is None)
             if exc is not None:
@@ -534,6 +552,9 @@ def run_c16(inst, seed, tid):
                 f.flag("null", not nz)
                 prob = dict(X=X, y=y, datafit=base, penalty=pend, fit_intercept=fi)
                 # with zero penalised coefficients the unpenalised part must be the loss minimiser
+                # (budgets are generous for these tiny problems: a run that exhausts them is not returning the
+                #  optimal unpenalised part; `claimed` is kept as information)
+                f.meta.setdefault("claimed", []).append(claimed)
                 f.le("null_unpenalised_optimal", PB.violation(prob, w)[0], 1e-6 * PB.null_scale(prob))
             else:
                 f.flag("nonnull", nz)
@@ -550,12 +571,15 @@ def run_c02(inst, seed, tid):
     import skglm
     from scipy import sparse
     kind, s, st, fi = inst["kind"], inst["solver"], inst["storage"], bool(inst["fit_intercept"])
-    rng = gen.rng_for(seed, "c02", kind, st, fi)            # same problem for every solver of a family
+    rng = gen.rng_for(seed, "c02", kind, st, fi, s in ("GramCD_acc", "GramCD", "AndersonCD_fixpoint",
+                                                        "MultiTaskBCD", "GroupBCD"))
     f = rel.Facts(tid, dict(inst, seed=seed))
     try:
         import sklearn.linear_model as sk
         frac = [0.5, 0.1, 0.02][int(rng.integers(3))]
         rho = [0.0, 0.6, 0.95][int(rng.integers(3))]
+        if s in ("GramCD_acc", "GramCD", "AndersonCD_fixpoint", "MultiTaskBCD", "GroupBCD"):
+            frac, rho = 0.02, 0.95          # slow convergence: Anderson extrapolations are attempted and accepted
         positive = "positive" in kind
         Q = {"kind": "Quadratic"}
         if kind in ("quantile_linprog", "sqrtlasso_fixedpoint"):
@@ -613,7 +637,8 @@ def run_c02(inst, seed, tid):
             dfd, pend = {"kind": "QuadraticSVC"}, {"kind": "IndicatorBox", "alpha": C}
             prob = None
             ref = __import__("sklearn.svm", fromlist=["LinearSVC"]).LinearSVC(
-                C=C, loss="hinge", fit_intercept=False, tol=1e-12, max_iter=10 ** 6, dual=True).fit(X, y)
+                C=C, loss="hinge", fit_intercept=False, tol=1e-12, max_iter=10 ** 6, dual=True,
+                random_state=0).fit(X, y)
             beta_ref = ref.coef_.ravel()
             if s == "LinearSVC":
                 e = skglm.LinearSVC(C=C, tol=TOL)
@@ -630,10 +655,14 @@ def run_c02(inst, seed, tid):
             def primal(b):
                 return C * np.maximum(0, 1 - y * (X @ b)).sum() + 0.5 * b @ b
             ok = bool(rep and beta is not None)
-            f.le("agree", (abs(primal(beta) - primal(beta_ref)) if ok else 0.0),
-                 1e-5 * max(1.0, abs(primal(beta_ref))), when=ok)
+            # a converged run attains the reference optimum; liblinear itself may stop short of it (it shuffles
+            # coordinates and warns), so the reverse gap only switches the comparison of minimisers off
+            gap = (primal(beta) - primal(beta_ref)) if ok else 0.0
+            tolp = 1e-5 * max(1.0, abs(primal(beta_ref)))
+            f.le("agree", gap, tolp, when=ok)
+            f.meta["reference_gap"] = float(-gap)
             f.le("unique_same_w", (float(np.max(np.abs(beta - beta_ref))) if ok else 0.0),
-                 1e-3 * max(1.0, float(np.abs(beta_ref).max())), when=ok)
+                 1e-3 * max(1.0, float(np.abs(beta_ref).max())), when=ok and abs(gap) <= tolp)
             return f.trace()
         elif kind == "multitask_sklearn":
             X = gen.design(rng, n, p, rho=rho)
@@ -734,7 +763,7 @@ def run_c02(inst, seed, tid):
             mu = SV.strong_convexity(prob, w)
             f.le("unique_same_w", float(np.max(np.abs(np.asarray(w) - np.asarray(wref)))),
                  (1e-3 if f.meta.get("ref_note") else 1e-5) * max(1.0, float(np.max(np.abs(wref)))),
-                 when=mu is not None and mu > 1e-4)
+                 when=mu is not None and mu > 1e-4 and abs(o - oref) <= loose * max(1.0, abs(oref)))
         else:
             f.le("agree", 0.0, 0.0, when=False)
     except BaseException as e:  # noqa: BLE001
@@ -781,7 +810,7 @@ def run(prop, tier, seed):
     ck = CK.Check(prop, tier, seed)
     ck.cov["rule"] = (
         "instance = (relation kind, solver, storage, fit_intercept) enumerated EXHAUSTIVELY by specs/api/Relations.tla "
-        f"(Family = {prop}); quick tier: seeded stratified sample (every kind at least once). Both members of each pair "
+        f"(Family = {prop}); both tiers execute every instance (thorough: with three draws of the numeric data). Both members of each pair "
         "are solved on the real code at tol 1e-10; a pair is compared when both runs REPORT convergence. Distinct = "
         "distinct instances; non-trivial = both members reported convergence and were compared.")
     ck.cov["trusted_base"] = ["harness/oracle objective (documented losses / penalties)", "reference implementations "
@@ -797,22 +826,11 @@ def run(prop, tier, seed):
     except tlc.TLCError as e:
         ck.machinery(str(e)[:2000])
         return ck.finish()
-    if tier == "quick":
-        rng = np.random.default_rng(seed)
-        order = list(rng.permutation(len(insts)))
-        keep, seen = [], set()
-        for i in order:
-            k = (insts[i]["kind"], insts[i].get("solver"))
-            if k not in seen:
-                seen.add(k)
-                keep.append(insts[i])
-        for i in order:
-            if len(keep) >= QUICK_N[prop]:
-                break
-            if insts[i] not in keep:
-                keep.append(insts[i])
-        insts = keep[:max(QUICK_N[prop], len(seen))]
-    jobs = [(FN[prop], it, seed, i + 1) for i, it in enumerate(insts)]
+    # both tiers run the WHOLE catalogue (it costs about a minute); the thorough tier instantiates it with three
+    # independent draws of the numeric data
+    seeds = [seed] if tier == "quick" else [seed, seed + 1, seed + 2]
+    ck.cov["exhaustive"] = True
+    jobs = [(FN[prop], it, sd, k * len(insts) + i + 1) for k, sd in enumerate(seeds) for i, it in enumerate(insts)]
     res, errs = pool.map_grouped("harness.checks.relations", "dispatch", jobs,
                                  key=lambda j: (j[1]["kind"], j[1].get("solver")), chunk=4)
     for it, msg, tb in errs:
@@ -829,7 +847,7 @@ def run(prop, tier, seed):
         names = {c for c, _ in v.bad(t["id"])}
         meta = t["meta"]
         compared = any(e["when"] and e["c"] in ("agree", "equivariant", "null", "nonnull") for e in t["events"])
-        ck.count(json.dumps({k: meta[k] for k in meta if k not in ("seed", "exc", "ref_note")}, sort_keys=True), compared)
+        ck.count(json.dumps({k: meta[k] for k in meta if k not in ("exc", "ref_note", "reference_gap")}, sort_keys=True), compared)
         ck.cov["traces_validated_against_impl"] += 1
         for e in t["events"]:
             if e["when"]:
